@@ -55,7 +55,14 @@ PAYLOAD_FORMS = {
     "variant_struct": lambda n, v: ([], "%s::Active { code: 1 }" % n, ["variant", n, "Active", True]),
     "variant_path": lambda n, v: ([], "%s::Active" % n, ["variant", n, "Active", False]),
 }
-CLEAN_PAYLOAD_FORMS = ["literal", "literal_q1", "literal_q2", "literal_self", "literal_super", "let_literal", "let_literal_q", "new"]
+# shadowing: the variable is bound twice in the function, the emit sees the later binding
+PAYLOAD_FORMS.update({
+    "shadow_param": lambda n, v: (["let %s = %s;" % (v, LIT % n)], v, ["lit", n], Ref(P("ShadowedAway"))),
+    "shadow_let": lambda n, v: (["let %s = %s;" % (v, LIT % "ShadowedAway"), "let %s = %s;" % (v, LIT % n)], "&" + v, ["lit", n]),
+    "shadow_typed": lambda n, v: (["let %s: ShadowedAway = Default::default();" % v, "let %s = %s;" % (v, LIT % ("crate::" + n))], v, ["lit", n]),
+    "shadow_param_new": lambda n, v: (["let %s = %s::new();" % (v, n)], v, ["new", [], n], P("ShadowedAway")),
+})
+CLEAN_PAYLOAD_FORMS = ["shadow_param", "shadow_let", "shadow_typed", "shadow_param_new", "literal", "literal_q1", "literal_q2", "literal_self", "literal_super", "let_literal", "let_literal_q", "new"]
 KF_PAYLOAD_FORMS = ["new_q", "variant_struct", "variant_path"]
 # type names whose first character is a caseless letter (Lo), a titlecase letter (Lt), an upper-case non-ASCII letter;
 # lower-case and underscore initials belong to class C07-6
@@ -186,7 +193,15 @@ def build(spec):
                   "unit": kind == "unit"}
             inline.setdefault(f, []).append((projgen.render_item(it), sx_item(it)[1:]))
             continue
-        if kind == "enum":
+        if kind == "enum" and t.get("data_variants"):
+            # tuple and struct variants (primitive payloads only: variant fields are not harvested at HEAD)
+            body = ["Active", "Point(i32, i32)", "Named { code: i32, label: String }", "Inactive"][: 2 + t["data_variants"] % 3]
+            if t["data_variants"] % 2:
+                body = body[1:] + body[:1]
+            items[f].append({"kind": "raw", "text": "%spub enum %s {\n%s\n}" % (
+                "#[derive(%s)]\n" % ", ".join(t["derives"]) if t["derives"] else "", name, "\n".join("    %s," % b for b in body)),
+                "c07": ["def", name, list(t["derives"]), ["enum"]]})
+        elif kind == "enum":
             items[f].append({"kind": "enum", "name": name, "derives": t["derives"], "serde": [],
                              "variants": [{"name": v, "serde": []} for v in ("Active", "Inactive", "InProgress")[:1 + i % 3]]})
             if t.get("attr_shape") is not None:
@@ -255,7 +270,10 @@ def build(spec):
                                      "c07": ["var", v]})
                     elif ctx in PAYLOAD_FORMS:       # payload written as a literal / variant / constructor call
                         nm = types[j]["name"]
-                        stmts, expr, pay = PAYLOAD_FORMS[ctx](nm, "pv%d" % n)
+                        form = PAYLOAD_FORMS[ctx](nm, "pv%d" % n)
+                        stmts, expr, pay = form[:3]
+                        if len(form) > 3:              # the payload variable is first bound as a parameter of another type
+                            params.append({"name": "pv%d" % n, "ty": form[3]})
                         body += stmts
                         ev = {"emit": ename, "recv": "app", "payload": expr, "c07": pay}
                         if n % 2:
@@ -394,6 +412,8 @@ def mk_types(rng, n, nfiles, p_enum=0.15, serde_all=True):
         r = rng.random()
         kind = "enum" if r < p_enum else ("unit" if r < p_enum + 0.05 else "struct")
         ts.append({"name": nm, "kind": kind, "derives": list(rng.choice(DERIVES)), "file": rng.randrange(nfiles)})
+        if kind == "enum" and rng.random() < 0.5:
+            ts[-1]["data_variants"] = rng.randint(1, 6)
     return ts
 
 
@@ -786,8 +806,11 @@ def payload_form_specs():
             enum = form.startswith("variant")
             types = [{"name": "Progress", "kind": "enum" if enum else "struct", "derives": list(SD2), "file": 1},
                      {"name": "Detail", "kind": "struct", "derives": list(SD2), "file": 0},
-                     {"name": "Meta", "kind": "struct", "derives": list(SD2), "file": 0}]
-            edges = [] if enum else [[0, 1, "vec"]]
+                     {"name": "Meta", "kind": "struct", "derives": list(SD2), "file": 0},
+                     # the type of the earlier binding: in a helper it is mentioned nowhere else and must stay undeclared
+                     {"name": "ShadowedAway", "kind": "struct", "derives": list(SD2), "file": 1},
+                     {"name": "ShadowedChild", "kind": "struct", "derives": list(SD2), "file": 0}]
+            edges = ([] if enum else [[0, 1, "vec"]]) + [[3, 4, "option"]]
             fn = {"name": "notify_it", "file": k % 2, "roots": [["param", 2, "direct"], ["event", 0, form]] if where == "cmd" else [["event", 0, form]]}
             other = {"name": "other_cmd", "file": 0, "roots": [["param", 2, "direct"]]}
             cmds, helpers = ([fn], []) if where == "cmd" else ([other], [fn])
@@ -815,3 +838,56 @@ def skip_edge_specs():
                           "cmds": [{"name": "save_all", "file": 0, "roots": roots}], "helpers": [], "nfiles": 2, "alias": False,
                           "shape": "skip-edges", "acyclic": True, "clean": True, "naming": "plain"})
     return specs
+
+
+def enum_target_specs():
+    """enums with tuple / struct variants as field types of structs at several nestings, in chains"""
+    specs = []
+    for k, ctx in enumerate(["direct", "option", "vec", "map_value", "tuple_last", "opt_vec", "vec_tuple", "map_tuple"]):
+        for dv in (1, 2, 3, 4):
+            types = [{"name": "Shape", "kind": "enum", "derives": list(SD2), "file": k % 2, "data_variants": dv},
+                     {"name": "Canvas", "kind": "struct", "derives": list(SD2), "file": 0},
+                     {"name": "Album", "kind": "struct", "derives": list(SD2), "file": 1},
+                     {"name": "Mode", "kind": "enum", "derives": ["Serialize"], "file": 0}]
+            edges = [[1, 0, ctx], [2, 1, "vec"], [2, 0, "option"], [1, 3, "direct"]]
+            specs.append({"types": types, "edges": edges, "cmds": [{"name": "draw", "file": 0, "roots": [["param", 2, "direct"], ["ret", 0, "result_ok"]]}],
+                          "helpers": [], "nfiles": 2, "alias": False, "shape": "enum-target", "acyclic": True, "clean": True, "naming": "plain"})
+    return specs
+
+
+def stale_generator_histories():
+    """one generator object over 2-3 different projects (a fresh analysis each): a name that is a serde type with
+    dependencies in project A is only mentioned, or a non-serde type, in project B"""
+    hs = []
+    for k in range(6):
+        A = {"types": [{"name": "Profile", "kind": "struct", "derives": list(SD2), "file": 0},
+                       {"name": "Settings", "kind": "struct", "derives": list(SD2), "file": 1},
+                       {"name": "Theme", "kind": "struct", "derives": list(SD2), "file": 0},
+                       {"name": "Badge", "kind": "struct", "derives": list(SD2), "file": 1}],
+             "edges": [[0, 1, ["direct", "option", "vec"][k % 3]], [1, 2, "vec"], [0, 3, "option"]],
+             "cmds": [{"name": "load_profile", "file": 0, "roots": [["ret", 0, "result_ok"]]}], "helpers": [], "nfiles": 2, "alias": False,
+             "shape": "gen-rounds", "acyclic": True, "clean": True, "naming": "plain"}
+        B = json.loads(json.dumps(A))
+        if k % 2:
+            B["types"][1]["derives"] = ["Debug", "Clone"]          # Settings is no longer a serde type
+        else:
+            B["types"][1]["kind"] = "tuple"; B["types"][1]["derives"] = ["Debug"]
+        B["edges"] = [e for e in B["edges"] if e[0] != 1]
+        C = json.loads(json.dumps(A)); C["edges"] = [[0, 3, "vec"]]   # Profile no longer mentions Settings at all
+        hs.append([A, B] if k < 3 else [A, C, B])
+    return hs
+
+
+def edit_histories():
+    """C09: rounds that EDIT existing types with one long-lived analyzer: reverse an edge, remove an edge, retarget a field"""
+    hs = []
+    for k, ctx in enumerate(["direct", "option", "vec", "map_value"]):
+        base = {"types": [{"name": n, "kind": "struct", "derives": list(SD2), "file": i % 2} for i, n in enumerate(["Alpha", "Beta", "Gamma"])],
+                "cmds": [{"name": "save_all", "file": 0, "roots": [["param", i, "direct"] for i in range(3)]}], "helpers": [], "nfiles": 2,
+                "alias": False, "shape": "edit-rounds", "acyclic": True, "clean": True, "naming": "plain"}
+        def v(edges):
+            x = json.loads(json.dumps(base)); x["edges"] = edges; return x
+        hs.append([v([[0, 1, ctx]]), v([[1, 0, ctx]]), v([[1, 0, ctx]])])                    # reversed
+        hs.append([v([[0, 1, ctx], [1, 2, "vec"]]), v([[0, 1, ctx]]), v([[2, 1, "option"], [0, 1, ctx]])])   # removed, then reversed
+        hs.append([v([[0, 1, ctx]]), v([[0, 2, ctx]]), v([[2, 0, ctx]])])                    # retargeted, then reversed
+    return hs
